@@ -86,16 +86,29 @@ pub fn parse_until<'a, T: Parse + Clone + Debug>(
             let possible_group = group_determiners
                 .clone()
                 .find(|group| group.check_input(input));
-            possible_group
+            let is_unit_end = possible_group
                 .map(|group| {
                     tokens.is_empty() && allow_empty_parsed
                         || group.check_parsed::<T>(tokens.clone())
                 })
-                .unwrap_or(false)
-                && {
-                    next = possible_group;
-                    true
-                }
+                .unwrap_or(false);
+
+            //
+            // `~` is already erased from input, so it should belong to combinator which starts here.
+            //
+            if deferred
+                && !(is_unit_end
+                    && possible_group
+                        .and_then(|group| group.combinator())
+                        .is_some())
+            {
+                return Err(input.error("`~` should be followed by combinator"));
+            }
+
+            is_unit_end && {
+                next = possible_group;
+                true
+            }
         }
     {
         let next: TokenTree = input.parse()?;
